@@ -210,7 +210,7 @@ class MState:
 
     __slots__ = (
         "cols", "visible", "rows", "group", "order_keys", "seq_defined", "origin",
-        "tname", "n_new", "types",
+        "tname", "n_new", "types", "join_pattern",
     )
 
     def __init__(self):
@@ -227,6 +227,7 @@ class MState:
         self.origin: frozenset = frozenset()
         self.tname = None
         self.n_new = 0
+        self.join_pattern = None
 
     def copy(self) -> "MState":
         s = MState()
@@ -1342,6 +1343,8 @@ class Model:
                 n.cols[c] = nm
         for c, nm in zip(rt.visible, new_right):
             n.cols[c] = nm
+        if isinstance(new_right, NamePattern):
+            n.join_pattern = new_right
         n.types = {**st.types, **rt.types}
         n.visible = list(st.visible) + list(rt.visible)
         n.rows = [{c: r.get(c) for c in n.cols} for r in pairs]
